@@ -249,7 +249,13 @@ def _case_batch_fn(case, p, B):
   else:
     case.encoded(cp.pwl_calibration_fn)
     units, nk = p['units'], p['nk']
-    shapes = lambda b: [[b, 1], [b, units, nk - 2], [b, units, nk]]
+    if p.get('two_d'):
+      # the documented 2-D per-example form of keypoint_input_parameters (shared by all units)
+      shapes = lambda b: [[b, units if p.get('per_unit_input') else 1], [b, nk - 2], [b, units, nk]]
+    elif p.get('bcast_units'):
+      shapes = lambda b: [[b, 1], [b, 1, nk - 2], [b, 1, nk]]
+    else:
+      shapes = lambda b: [[b, 1], [b, units, nk - 2], [b, units, nk]]
     fn = lambda x, ki, ko: cp.pwl_calibration_fn(x, ki, ko, units=units, monotonicity=p.get('mono', 'none'),
                                                  keypoint_input_min=0.0, keypoint_input_max=2.0)
   tr3 = Traced(fn, [tf.TensorSpec(s, tf.float32) for s in shapes(B)], name=p['layer'] + '[batch3]')
@@ -480,6 +486,9 @@ def cases(tier, seed):
   add('case_batch', layer='cdf_fn', nk=2, dim=2, units=1, activation='sigmoid', reduction='geometric_mean')
   add('case_batch', layer='pwl_fn', nk=3, units=2, mono='increasing')
   add('case_batch', layer='pwl_fn', nk=4, units=1, mono='none')
+  add('case_batch', layer='pwl_fn', nk=3, units=2, mono='none', two_d=True)
+  add('case_batch', layer='pwl_fn', nk=4, units=3, mono='increasing', two_d=True, per_unit_input=True)
+  add('case_batch', layer='pwl_fn', nk=3, units=2, mono='increasing', bcast_units=True)
   add('case_batch', layer='premade')
   if tier == 'thorough':
     add('case_constraint', layer='lattice', units=3, cfg=dict(sizes=[3, 3, 2], mono=[1, 1, 0], edge=[[0, 2, 1]], trap=[[1, 2, 1]], omin=0.0, omax=1.0, iters=1),
